@@ -23,7 +23,7 @@ SysCan == \/ \E r \in Remotes : Open(r) /\ pend[r] = NoEnv /\ wire[r] # <<>>
           \/ findq # <<>> \/ resolving # {}
           \/ \E i \in Insts : ist[i] = "starting"
           \/ \E x \in att : ~Open(x.r) \/ ist[<<x.u, x.n>>] # "starting"
-          \/ \E i \in Insts : ist[i] = "running" /\ inbox[i] # <<>> /\ i \notin due
+          \/ \E i \in Insts : ist[i] = "running" /\ (inbox[i] # <<>> \/ evq[i] # <<>>) /\ i \notin due
           \/ \E i \in due : ist[i] = "running"
           \/ \E i \in Insts : ist[i] = "stopping" /\ (~Hold \/ i \in released \/ i \in nohold)
           \/ \E i \in Insts : ist[i] = "done"
@@ -35,6 +35,12 @@ Settled == SysCan => \/ lastAct'.k \notin EnvKinds
                      \/ lastAct'.k = "send" /\ burst >= 1 /\ burst < MaxBurst
 \* after a shutdown the environment only sends / releases (nothing else is of interest)
 AfterShutdown == srv # "run" => lastAct'.k \notin {"connect", "disconnect", "timeout", "fail"}
+
+\* do not walk out of the modelled scope: no envelope for a node that would need instance MaxInst + 1
+NoOverflow == lastAct'.k = "send" =>
+                 LET u == lastAct'.u IN
+                 \/ FindRoute(u) = 0 \/ cnt[u] < MaxInst
+                 \/ (chan[u] # 0 /\ ist[<<u, chan[u]>>] \in {"starting", "running", "stopping"} /\ <<u, chan[u]>> \notin due)
 
 \* state graph dump (lastAct and the ghosts hidden by the VIEW); `c`: the system can still move in the target state
 EdgeDump == PrintT(<<"EDGE", ToJson([s |-> ToString(View), a |-> lastAct', t |-> ToString(View'), c |-> SysCan'])>>)
